@@ -898,6 +898,13 @@ func recalcDepth(peers *pslice.PSlice, radius uint8, filter peerFilterFunc) uint
 			// therefore we can return assuming that bin is the unsaturated one.
 			return true, false, nil
 		}
+		if bin > shallowestUnsaturated+1 {
+			// the bins in between hold peers but none that passes the filter:
+			// the first of them is the unsaturated one
+			shallowestUnsaturated++
+			binCount = 0
+			return true, false, nil
+		}
 		shallowestUnsaturated = bin
 		binCount = 1
 
